@@ -11,17 +11,19 @@ CLAIM = dict(cat="proof", design="§3 C07, Appendix A.5",
         "two tasks between lock_dependency and unlock_dependency never share a lock, hence never a subgrid (mutual_exclusion); exact accounting of number_of_tasks, never decremented at 0, "
         "0 when all threads left (counter_exact); some thread can always strictly decrease a measure within two of its own steps (progress = deadlock freedom) and every non-idle step decreases it "
         "(bounded_work: termination under weak fairness; starvation by an adversarial scheduler is not claimed); the state after a step equals the initial state of the next (reset_reestablishes_init); "
-        "wf_check is sound. make_graph true (literal model of make_hydro_tasks/set_dependencies/reset_hydro_tasks of the repaired code) is well formed for ALL layouts up to 4x4x4 x 8 periodicities, including a periodic axis of one subgrid "
-        "(C07_make_graph_wf_partial, by kernel evaluation; C07_self_pair_single_lock: such a self pair task has one lock, that of the only subgrid it touches). The pinned commit (make_graph false) is REFUTED for a periodic axis with exactly one subgrid "
+        "wf_check is sound. make_graph true (literal model of make_hydro_tasks/set_dependencies/reset_hydro_tasks of the repaired code) is well formed for EVERY layout: any number >= 1 of subgrids per axis, every periodicity, including periodic axes of one or two subgrids "
+        "(C07_make_graph_wf, unbounded, Cxx/C07_GraphGen.v: closed form of the sequential task numbering C07_make_graph_numbering, mutual in-range neighbours by div/mod arithmetic C07_neighbours_mutual/_in_range, and counting of the 23 child edges per subgrid over slot references - "
+        "the reset counters 0/7/1/1|2/7/1 are exactly the in-degrees, <= 7 children, edges go up in phase; C07_make_graph_locks_exact: for every layout the locks of a task are exactly those of the subgrids it touches and a pair task of a subgrid with itself has one lock; "
+        "C07_wf_check_accepts_upto_4: independent kernel evaluation of the run-time checker wf_check on all 512 graphs <= 4x4x4). The pinned commit (make_graph false) is REFUTED for a periodic axis with exactly one subgrid "
         "(C07_self_neighbour_refuted / _never_completes, defect D2: the pair task took the same lock twice; fixed, the D2 layouts stay in the corpus as regression cases: the real loop must terminate). "
         "Tie, every run: the real task table (harness includes the real translation unit and calls the real functions on a real DensitySubGridCreator) is diffed with make_graph for every layout <= 3x3x3 (thorough 4x4x4 + random larger) x 8 periodicities, "
         "wf_check is evaluated on the REAL table, a hydro step is run on the real Task/TaskQueue/ThreadLock/AtomicValue objects with interleaved virtual threads that run is replayed label by label through the model's step function, the REAL worker loop (source lines of do_simulation included verbatim) is run on real OpenMP threads, "
         "and an independent oracle checks property C07 on the real run.",
-   note="Trusted: Coq kernel; ExtrOcamlBasic extraction + OCaml driver + Python oracle (correspondence only). PARTIAL: make_graph_wf only up to 4x4x4 (larger layouts: wf_check on the dumped real table at run time). "
+   note="Trusted: Coq kernel; ExtrOcamlBasic extraction + OCaml driver + Python oracle (correspondence only). make_graph_wf is proved for ALL layouts (nothing partial); that make_graph is the table the code builds is tied at run time (differential dump, plus wf_check evaluated on the dumped real tables). "
         "Abstractions, argued not proved: lock_dependency is one atomic step (its transient hold of the first lock only adds failed fetches, which the model allows at any time); the per-thread LIFO queues with stealing are one multiset with arbitrary choice; "
         "execute_task is not modelled (its footprint = Task::_subgrid and, for pair tasks, Task::_buffer, as in execute_task's switch). The virtual-thread executor of the harness re-types the loop skeleton (the real loop is inside do_simulation); every shared-data operation in it is the real member function. "
         "Observation proved as C07_early_exit_possible: a thread may leave the loop early (number_of_tasks transiently 0 between add_task and pre_increment) - loss of parallelism only.",
-   technique="inductive invariant over interleavings in Coq + kernel evaluation of wf_check + differential table dump + replay of real-primitive runs through the extracted step function")
+   technique="inductive invariant over interleavings in Coq + general well-formedness proof of the task graph (closed-form numbering, div/mod neighbour arithmetic, edge counting) + kernel evaluation of wf_check + differential table dump + replay of real-primitive runs through the extracted step function")
 
 HARNESS = os.path.join(vf.VERIF, "harness/c07/dump_graph.cpp")
 DRIVER = os.path.join(vf.VERIF, "ocaml/c07_driver.ml")
@@ -394,7 +396,7 @@ def run(ck):
         "footprint of a task = Task::_subgrid and, for neighbour tasks, Task::_buffer (the arguments execute_task passes to the sweep functions); what the sweeps do inside the subgrids belongs to C05/C11",
         "the real-primitive runs use ONE OS thread that interleaves virtual threads at the shared-data accesses (sequentially consistent atomics assumed); the loop skeleton in the harness is re-typed from do_simulation, all operations are the real member functions",
         "model schedules on the real tables are random samples (sanity evidence only); the for-all-schedules statement is the Coq proof",
-        "make_graph_wf is proved only up to 4x4x4; for larger layouts the check evaluates wf_check on the real dumped table at run time",
+        "make_graph_wf is proved for every layout (C07_make_graph_wf); that the model make_graph equals the table built by the real make_hydro_tasks/set_dependencies/reset_hydro_tasks is checked differentially (exhaustive small box + random larger layouts), not proved",
         "extraction through ExtrOcamlBasic; OCaml driver and Python oracle trusted for the correspondence only",
     ]
     ck.resolve_breaks_without_input()
